@@ -217,10 +217,10 @@ def names_of(prog, tag):
     return res
 
 
-def run_cppcheck_retry(args, cwd, timeout):
+def run_cppcheck_retry(args, cwd, timeout, env=None):
     for _ in range(60):
         try:
-            return vlib.run_cppcheck(args, cwd=cwd, timeout=timeout)
+            return vlib.run_cppcheck(args, cwd=cwd, timeout=timeout, env=env)
         except OSError:
             time.sleep(1.0)
     raise vlib.InfraError("cppcheck binary not executable: %s" % vlib.cppcheck_bin())
